@@ -16,8 +16,9 @@ def name_of(cfg):
             f"{cfg['batch']}/F={k['factor_update_steps']}/decay="
             f"{k['factor_decay']}/acc={k.get('accumulation_steps', 1)}/hook="
             f"{k.get('update_factors_in_hook', True)}/scale="
-            f"{cfg.get('scale')}/fdt={k.get('factor_dtype')}/hist="
-            f"{''.join(o[0][0] for o in cfg['history'])}")
+            f"{cfg.get('scale')}/fdt={k.get('factor_dtype')}/"
+            f"{k.get('compute_method', 'eigen')}/hist="
+            f"{''.join('R' if o[0] == 'train_reset' else o[0][0] for o in cfg['history'])}")
 
 
 def check_records(part, cfg, rec, ref, who=''):
@@ -25,7 +26,7 @@ def check_records(part, cfg, rec, ref, who=''):
     vs = []
     for ev, rv in zip(rec, ref):
         part.count('evaluations')
-        if ev['op'][0] == 'train':
+        if ev['op'][0] in ('train', 'train_reset'):
             if rv['factor_step']:
                 vs += O.factors_vs_ref(cfg, ev, rv, who, stats=part)
             if prev_f is not None and not rv['factor_step']:
@@ -96,6 +97,10 @@ def histories():
         for c in tail:
             h += [['train']] if c == 't' else [['eval'], ['state']]
         out.append(h + [['train']])
+    # reset_batch() inside an accumulation window (a skipped / overflowed
+    # micro-batch): the discarded statistics must not count
+    out.append([['train'], ['train_reset', 1], ['train'], ['train_reset', 1],
+                ['train']])
     return out
 
 
@@ -117,10 +122,18 @@ def configs(thorough, seed):
         i += 1
         h = hists[(i + seed) % len(hists)] if not thorough else None
         for hist in ([h] if h else hists[::2]):
+            if hist[1][0] == 'train_reset' and acc == 1:
+                if thorough:
+                    continue
+                hist = hists[i % (len(hists) - 1)]
+            meth, pre = (('eigen', True), ('inverse', False), ('eigen', False),
+                         ('inverse', False), ('eigen', True))[i % 5]
             k = dict(factor_update_steps=F,
                      inv_update_steps=(F, 3, 1)[i % 3],
                      damping=0.1, factor_decay=dec, kl_clip=1e-3, lr=0.1,
-                     accumulation_steps=acc, update_factors_in_hook=hook)
+                     accumulation_steps=acc, update_factors_in_hook=hook,
+                     compute_method=meth,
+                     compute_eigenvalue_outer_product=pre)
             if fdt:
                 k['factor_dtype'] = fdt
             cfg = {'model': model, 'dtype': 'f32', 'batch': b, 'world': 1,
@@ -157,7 +170,8 @@ def main(run: core.Run):
         'configuration box {linear incl. N-d inputs, conv geometries} x '
         'batch x decay (constants, exp-decay schedule) x accumulation x '
         'hook/no-hook x loss scale (none, constant, changing per step) x '
-        'factor dtype x factor interval {1,2} x train/eval histories; plus '
+        'factor dtype x factor interval {1,2} x compute method x train/eval '
+        'histories and reset_batch() inside an accumulation window; plus '
         'simulated worlds 2 and 3 (bucketed/unbucketed, symmetric/dense); '
         'after every step the state_dict factors are compared with the '
         'float64 running average of reference moments captured on a '
